@@ -35,7 +35,8 @@ class InterruptableThread(threading.Thread):
         """
         try:
             self.result = self.func(*self.args, **self.kwargs)
-        except Exception:
+        except (Exception, SystemExit):
+            # SystemExit too: a thread that exits would otherwise end silently
             self.exc_info = sys.exc_info()
 
     @staticmethod
@@ -95,9 +96,10 @@ def timeout(duration, func, *args, **kwargs):
     else:
         if target_thread.exc_info[0] is not None:
             ei = target_thread.exc_info
-            # Python 2 had the three-argument raise statement; thanks to PEP
-            # 3109 for showing how to convert that to valid Python 3 statements.
-            e = ei[0](ei[1])
+            # Re-raise the very exception object: constructing a new instance
+            # from the old one fails for classes with other signatures
+            # (e.g., SyntaxError loses its position, ExceptionGroup raises).
+            e = ei[1]
             e.__traceback__ = ei[2]
             e.exc_info = target_thread.exc_info
             raise e
